@@ -1,6 +1,7 @@
 package main
 
 import (
+	"math"
 	"fmt"
 	"io"
 	"os"
@@ -45,7 +46,12 @@ func genWQ(g *genCtx) {
 			continue
 		}
 		W, L := r.rangeIn(1, maxW), r.rangeIn(1, maxL)
-		g.op("new W=%d L=%d", W, L)
+		if t%3 == 2 {
+			// the options in the other order: the configuration must not depend on it
+			g.op("new W=%d L=%d order=LW", W, L)
+		} else {
+			g.op("new W=%d L=%d", W, L)
+		}
 		n := 0     // enqueues issued
 		subs := 0  // subscribers
 		stopped := false
@@ -73,7 +79,17 @@ func genWQ(g *genCtx) {
 				if (profile == "C05" || profile == "C16") && r.chance(1, 3) || r.chance(1, 10) {
 					adj = 1
 				}
-				g.op("enq prio=%d name=%d adj=%d", r.intn(prioRange)+1, n, adj)
+				pr := r.intn(prioRange) + 1
+				if t%7 == 3 {
+					// priorities are ints: the whole range, including values whose difference overflows
+					pr = []int{math.MinInt, math.MinInt + 1, -5, -1, 0, 1, 2, math.MaxInt - 1, math.MaxInt}[r.intn(9)]
+				}
+				if adj == 1 && n%3 == 0 {
+					// an adjust function whose value differs from the Enqueue priority from the start
+					g.op("enq prio=%d name=%d adj=%d av=%d", pr, n, adj, (pr+n)%(prioRange+2))
+				} else {
+					g.op("enq prio=%d name=%d adj=%d", pr, n, adj)
+				}
 				n++
 			case x < 68:
 				e := 0
@@ -158,7 +174,12 @@ func genAdjustStorm(g *genCtx, r *rng, profile string) {
 			g.op("rel pick=0 err=0")
 		}
 		if r.chance(1, 2) {
-			g.op("enq prio=%d name=%d adj=%d", r.rangeIn(1, 9), n, b2i(r.chance(1, 2)))
+			// arrives while the queue is full; its adjust function (if any) differs from its Enqueue priority from the start
+			if r.chance(1, 2) {
+				g.op("enq prio=%d name=%d adj=1 av=%d", r.rangeIn(1, 9), n, r.rangeIn(0, 12))
+			} else {
+				g.op("enq prio=%d name=%d adj=0", r.rangeIn(1, 9), n)
+			}
 			waiting = append(waiting, n)
 			n++
 		}
@@ -348,7 +369,11 @@ func execWQCase(x *execCtx) {
 		switch toks[0] {
 		case "new":
 			r = &wqRun{W: atoi(f["W"]), returned: map[int]bool{}, adjVals: map[int]*atomic.Int64{}}
-			r.q = workqueue.NewQueue(workqueue.WithWorkers(r.W), workqueue.WithQueueLength(atoi(f["L"])))
+			if f["order"] == "LW" {
+				r.q = workqueue.NewQueue(workqueue.WithQueueLength(atoi(f["L"])), workqueue.WithWorkers(r.W))
+			} else {
+				r.q = workqueue.NewQueue(workqueue.WithWorkers(r.W), workqueue.WithQueueLength(atoi(f["L"])))
+			}
 			out(line, r.observe(""))
 		case "enq":
 			it := &wqItem{ord: len(r.items), gate: make(chan error)}
@@ -364,6 +389,9 @@ func execWQCase(x *execCtx) {
 				if f["adj"] == "1" {
 					v := &atomic.Int64{}
 					v.Store(int64(prio))
+					if av, ok := f["av"]; ok {
+						v.Store(int64(atoi(av)))
+					}
 					r.mu.Lock()
 					r.adjVals[it.ord] = v
 					r.mu.Unlock()
